@@ -85,6 +85,22 @@ type PeerConfig struct {
 	MACs     []string           // preference list (default: all of MACs() except "none")
 	HostKey  ed25519.PrivateKey // server role: ssh-ed25519 host key (required)
 	NoStrict bool               // do not advertise strict KEX
+	// HostKeyAlgos is the server_host_key_algorithms list to advertise
+	// (default "ssh-ed25519", the only one Peer implements; further names may
+	// be listed as long as ssh-ed25519 is what gets negotiated).
+	HostKeyAlgos []string
+	// Follows sets first_kex_packet_follows (RFC 4253 section 7) in every
+	// KEXINIT. As client the Peer then sends the first packet of its
+	// preferred method (Kex[0]) right behind its KEXINIT; if the guess turns
+	// out right (both sides' first kex and first host key algorithm agree)
+	// that packet is the exchange's first packet, otherwise the other side
+	// has to discard it and the Peer sends the real one.
+	Follows bool
+	// ServerGuess: as server, with Follows, send a placeholder reply packet
+	// right behind KEXINIT (a server cannot compute a real ECDH reply before
+	// it has the client's value). Only meaningful when the guess is wrong,
+	// because then the client must discard exactly that one packet.
+	ServerGuess bool
 	Rand     io.Reader          // default crypto/rand.Reader
 	// CheckHostKey, client role: called with the server's ed25519 public key
 	// (nil: accept any). The signature over H is always verified.
@@ -473,11 +489,55 @@ func (p *Peer) kex(peerInit []byte) error {
 			kexList = append(kexList, strictClientMarker)
 		}
 	}
-	own.byte(MsgKexInit).raw(cookie).list(kexList).list([]string{"ssh-ed25519"}).
+	hostAlgos := p.cfg.HostKeyAlgos
+	if len(hostAlgos) == 0 {
+		hostAlgos = []string{"ssh-ed25519"}
+	}
+	own.byte(MsgKexInit).raw(cookie).list(kexList).list(hostAlgos).
 		list(p.cfg.Ciphers).list(p.cfg.Ciphers).list(p.cfg.MACs).list(p.cfg.MACs).
-		list([]string{"none"}).list([]string{"none"}).list(nil).list(nil).bool(false).u32(0)
+		list([]string{"none"}).list([]string{"none"}).list(nil).list(nil).bool(p.cfg.Follows).u32(0)
 	if err := p.WritePacket(own.b); err != nil {
 		return err
+	}
+	// key pair generation for a named method: (ecdh key | DH exponent, public value as sent)
+	genKey := func(name string) (*ecdh.PrivateKey, *big.Int, []byte, error) {
+		if c := kexCurve(name); c != nil {
+			k, err := c.GenerateKey(p.cfg.Rand)
+			if err != nil {
+				return nil, nil, nil, err
+			}
+			return k, nil, k.PublicKey().Bytes(), nil
+		}
+		xb := make([]byte, 40)
+		io.ReadFull(p.cfg.Rand, xb)
+		x := new(big.Int).SetBytes(xb)
+		x.Add(x, big.NewInt(2))
+		e := new(big.Int).Exp(big.NewInt(2), x, dhGroup14P)
+		return nil, x, sshref.MPInt(e)[4:], nil
+	}
+	var guessPriv *ecdh.PrivateKey
+	var guessX *big.Int
+	var guessPub []byte
+	guessSent := false
+	if p.cfg.Follows {
+		if !p.cfg.Server {
+			var err error
+			if guessPriv, guessX, guessPub, err = genKey(kexList[0]); err != nil {
+				return err
+			}
+			if err := p.WritePacket((&msgBuf{}).byte(MsgKexECDHInit).str(guessPub).b); err != nil {
+				return err
+			}
+			guessSent = true
+		} else if p.cfg.ServerGuess {
+			junk := make([]byte, 32)
+			io.ReadFull(p.cfg.Rand, junk)
+			hb := (&msgBuf{}).str([]byte("ssh-ed25519")).str(p.cfg.HostKey.Public().(ed25519.PublicKey)).b
+			sg := (&msgBuf{}).str([]byte("ssh-ed25519")).str(make([]byte, 64)).b
+			if err := p.WritePacket((&msgBuf{}).byte(MsgKexECDHReply).str(hb).str(junk).str(sg).b); err != nil {
+				return err
+			}
+		}
 	}
 	for peerInit == nil {
 		pl, _, err := p.ReadRawPacket()
@@ -550,19 +610,12 @@ func (p *Peer) kex(peerInit []byte) error {
 	var x *big.Int
 	var priv *ecdh.PrivateKey
 	var ownPub []byte
-	if curve != nil {
-		priv, err = curve.GenerateKey(p.cfg.Rand)
-		if err != nil {
-			return err
-		}
-		ownPub = priv.PublicKey().Bytes()
-	} else {
-		xb := make([]byte, 40)
-		io.ReadFull(p.cfg.Rand, xb)
-		x = new(big.Int).SetBytes(xb)
-		x.Add(x, big.NewInt(2))
-		e := new(big.Int).Exp(big.NewInt(2), x, dhGroup14P)
-		ownPub = sshref.MPInt(e)[4:]
+	// our own guess was right iff both sides prefer the same kex and host key algorithm
+	guessRight := guessSent && len(peer.kex) > 0 && len(peer.hostKey) > 0 && ownK.kex[0] == peer.kex[0] && ownK.hostKey[0] == peer.hostKey[0]
+	if guessRight {
+		priv, x, ownPub = guessPriv, guessX, guessPub
+	} else if priv, x, ownPub, err = genKey(info.Kex); err != nil {
+		return err
 	}
 	ecdhSecret := func(theirs []byte) (*big.Int, error) {
 		pub, err := curve.NewPublicKey(theirs)
@@ -601,8 +654,10 @@ func (p *Peer) kex(peerInit []byte) error {
 		hostBlob = (&msgBuf{}).str([]byte("ssh-ed25519")).str(pub).b
 	} else {
 		qC = ownPub
-		if err := p.WritePacket((&msgBuf{}).byte(MsgKexECDHInit).str(qC).b); err != nil {
-			return err
+		if !guessRight { // a right guess already is the first packet of the exchange
+			if err := p.WritePacket((&msgBuf{}).byte(MsgKexECDHInit).str(qC).b); err != nil {
+				return err
+			}
 		}
 		pl, _, err := p.ReadRawPacket()
 		if err != nil {
